@@ -61,7 +61,7 @@ func NewRun(prop, tier, verifDir string) *Run {
 	r := &Run{Prop: prop, Tier: tier, Seed: seed, Start: time.Now(), VerifDir: verifDir,
 		seenSig: map[string]bool{}, knownHits: map[string]int{}, Incidental: map[string]int{},
 		Distinct: map[string]bool{}, Exhaustive: true, Extra: map[string]any{}}
-	budget := 150 * time.Second
+	budget := 240 * time.Second
 	if tier == "thorough" {
 		budget = 25 * time.Minute
 	}
